@@ -24,6 +24,8 @@ type c13Case struct {
 	Recv  string `json:"recv"`         // cselect: fresh | u | v   (receiver aliased with an operand)
 	Same  bool   `json:"same,omitempty"` // cmp through the same pointer / cselect(c, s, s)
 	Class string `json:"class"`
+	// Move (Op == "cmp"): operand s is an object that held Move.From, was compared/encoded, and was driven to S.
+	Move *mon.ScalarMove `json:"move,omitempty"`
 }
 
 func init() {
@@ -34,14 +36,14 @@ func init() {
 			"pairs differing in exactly one canonical limb and pairs differing in exactly one stored limb (each limb, both directions), s=t (same and distinct objects), s=t±1, (0,n-1), values whose stored form is adjacent to One() or to zero, PRNG pairs; " +
 			"CSelect with condition words 0,1,2,every 2^k,2^64-1,alternating patterns, random, receiver fresh or aliased with either operand, nil operands. " +
 			"Oracle: integer comparison of the canonical values in math/big; CSelect must yield the first operand for 0 and the second for every non-zero word, and on a nil operand return an error with the receiver bit-identical. " +
-			"non-trivial = s != t or a cselect case; distinct by the whole case. Plus concurrent batches: 8 goroutines run the operations simultaneously on objects they own, each result judged against the oracle.",
+			"non-trivial = s != t or a cselect case; History cases: operand s is an object that held another value, was compared and serialised, and reached its value through each mutator of the API. distinct by the whole case. Plus concurrent batches: 8 goroutines run the operations simultaneously on objects they own, each result judged against the oracle.",
 		NewCase:  func() any { return &c13Case{} },
 		Generate: c13Generate,
 		Run:      c13Run,
 		Require: func(string) map[string]int64 {
 			return map[string]int64{
 				"cmp": 5000, "cmp:s<t": 1000, "cmp:s>t": 1000, "cmp:s=t": 200, "class:one-canonical-limb": 24, "class:one-stored-limb": 24,
-				"cselect": 1000, "cselect:cond=0": 100, "cselect:cond=1": 50, "cselect:cond>1": 500, "cselect:nil": 6, "cselect:recv-aliased": 100, "isone:true": 3, "iszero:true": 3,
+				"cselect": 1000, "cselect:cond=0": 100, "cselect:cond=1": 50, "cselect:cond>1": 500, "cselect:nil": 6, "cselect:recv-aliased": 100, "isone:true": 3, "iszero:true": 3, "history-cases": 200,
 			}
 		},
 	})
@@ -146,6 +148,21 @@ func c13Generate(c *mon.Ctx) {
 		c.Structured(func() any { return &c13Case{Op: "cselect", S: "nil", T: "nil", Cond: cond, Recv: "fresh", Class: "nil"} })
 	}
 
+	mr := c.SharedRng("moves")
+
+	for rep := 0; rep < 12; rep++ {
+		for _, via := range mon.ScalarVias {
+			mv := mon.PlanScalarMove(via, mr)
+			other := hx(gen.Draw(mr, n).X)
+
+			if rep%3 == 0 {
+				other = mv.To
+			}
+
+			c.Structured(func() any { return &c13Case{Op: "cmp", S: mv.To, T: other, Class: "history", Move: &mv} })
+		}
+	}
+
 	c.Random(c.N(400000, 40000000), func(r *gen.Rng) any {
 		if r.Intn(4) == 0 {
 			cond := r.U64()
@@ -192,6 +209,25 @@ func c13Run(c *mon.Ctx, csAny any) {
 	case "cmp":
 		s, sv := mk(cs.S)
 		t, tv := mk(cs.T)
+
+		if cs.Move != nil && t != nil {
+			c.Count("history-cases")
+
+			s = mon.Scal(mon.BigH(cs.Move.From))
+			// the old value is compared and serialised, then the object moves
+			_, _, _, _ = s.LessOrEqual(t), t.LessOrEqual(s), s.Equal(t), s.IsOne()
+			_, _ = s.Encode(), s.Bits()
+
+			if pan, pv := mon.Call(func() { mon.ApplyScalarMove(s, *cs.Move) }); pan {
+				if m, ok := pv.(string); ok && len(m) > 8 && m[:8] == "harness:" {
+					panic(m)
+				}
+
+				c.Fail(fmt.Sprintf("mutator %s panicked: %v", cs.Move.Via, pv), "cmp-history-panic", nil)
+
+				return
+			}
+		}
 
 		if cs.Same {
 			t = s
